@@ -158,8 +158,9 @@ def build(x):
     pieces += [st, SPEC_IMPL]
     pu = x.method(F, 'IterationLeader', 'process_updates'); pu.name_result('r')
     pu.sub('V-ASSERT', r'update => unreachable!\((?:[^()]|\((?:[^()]|\([^()]*\))*\))*\),', 'update => { rust_panic(); }', detail='unreachable!() arm -> rust_panic() (requires false)', flags=re.S, must=True)
-    pu.sub('V-SUBST', r'let rx = self\.state_update_receiver\.as_mut\(\)\.unwrap\(\);\s*\n', '', detail='alias `rx` inlined (a &mut alias held across the loop hides the receiver from loop invariants)', must=True)
-    pu.sub('V-SUBST', r'\brx\.next\(\)', 'self.state_update_receiver.as_mut().unwrap().next()', detail='alias `rx` inlined', must=True)
+    pu.bind('rx', r'let (\w+) = self\.state_update_receiver\.as_mut\(\)\.unwrap\(\);')
+    pu.sub('V-SUBST', r'let \w+ = self\.state_update_receiver\.as_mut\(\)\.unwrap\(\);\s*\n', '', detail='alias `rx` inlined (a &mut alias held across the loop hides the receiver from loop invariants)', must=True)
+    pu.sub('V-SUBST', r'\b%s\.next\(\)' % re.escape(pu.names['rx']), 'self.state_update_receiver.as_mut().unwrap().next()', detail='alias `rx` inlined', must=True)
     pu.add_spec(PU_SPEC)
     pu.text = '#[verifier::exec_allows_no_decreases_clause]\n' + pu.text
     pu.insert_before(re.compile(r'while missing_state_updates > 0'), 'let ghost h00 = self.state_update_receiver->0.hist();\n        let ghost s00 = self.state->0;\n        proof { assert(h00.skip(h00.len() as int) =~= Seq::<StreamElement<DeltaUpdate>>::empty()); }\n        ')
@@ -182,7 +183,7 @@ def build(x):
     nx.add_spec(NEXT_SPEC)
     nx.text = '#[verifier::exec_allows_no_decreases_clause]\n' + nx.text
     nx.insert_at_body_start('\n        let ghost mut rounds: nat = 0;')
-    nx.insert_before(re.compile(r'let result = self\.final_result\(\);'), 'proof { rounds = rounds + 1; }\n            ')
+    nx.insert_before(re.compile(r'let result(?:\s*:\s*[^=;]+)? = self\.final_result\(\);'), 'proof { rounds = rounds + 1; }\n            ')
     nx.insert_before(re.compile(r'return StreamElement::Item\(state\);'), 'proof { assert(Self::ran(old(self), self, rounds)); }   // #obl:leader.runs_at_most_the_remaining_rounds.at_return\n                ')
     nx.insert_after_stmt('let state_feedback = (', '''
             // the verdict broadcast to the body replicas is Continue iff the loop goes on, with the state they must use in the next round
